@@ -225,7 +225,7 @@ def callSigs (out : List Item) : List (Nat × List TEv × Bool) :=
 
 theorem exec_shape (c : Cfg) (f : Nat) (w : World) (wt : Watcher) (evs : List TEv) (fl : Bool)
     (h : (run c f (.exec wt evs fl) w).1 ≠ .oof) :
-    callSigs (run c f (.exec wt evs fl) w).2.2 = [(wt.cb, evs, fl)] := by
+    callSigs (run c f (.exec wt evs fl) w).2.2 = [(wt.cb, shown wt evs, fl)] := by
   cases f with
   | zero => simp [run] at h
   | succ f => simp [run, callSigs]
@@ -233,7 +233,7 @@ theorem exec_shape (c : Cfg) (f : Nat) (w : World) (wt : Watcher) (evs : List TE
 theorem callWatcher_shape (c : Cfg) (f : Nat) (w : World) (wt : Watcher) (ev : Ev)
     (hb : w.batch = false) (h : (run c f (.callWatcher wt ev) w).1 ≠ .oof) :
     callSigs (run c f (.callWatcher wt ev) w).2.2 =
-      if passes w.trigger wt ev then [(wt.cb, [typed w.trigger wt ev], false)] else [] := by
+      if passes w.trigger wt ev then [(wt.cb, shown wt [typed w.trigger wt ev], false)] else [] := by
   cases f with
   | zero => simp [run] at h
   | succ f =>
@@ -249,7 +249,7 @@ the one typed event. -/
 theorem dispatch_shape (c : Cfg) (ev : Ev) : ∀ (ws : List Watcher) (f : Nat) (w : World),
     w.batch = false → (run c f (.dispatch ws ev) w).1 = .ok →
     callSigs (run c f (.dispatch ws ev) w).2.2 =
-      (ws.filter (fun wt => passes w.trigger wt ev)).map (fun wt => (wt.cb, [typed w.trigger wt ev], false)) := by
+      (ws.filter (fun wt => passes w.trigger wt ev)).map (fun wt => (wt.cb, shown wt [typed w.trigger wt ev], false)) := by
   intro ws
   induction ws with
   | nil =>
@@ -289,7 +289,7 @@ the order given, each with its events `evsFor`. -/
 theorem flushRound_shape (c : Cfg) (dict : List Ev) : ∀ (ws : List Watcher) (f : Nat) (w : World),
     (run c f (.flushRound ws dict) w).1 = .ok →
     callSigs (run c f (.flushRound ws dict) w).2.2 =
-      ws.map (fun wt => (wt.cb, evsFor w.trigger wt dict, true)) := by
+      ws.map (fun wt => (wt.cb, shown wt (evsFor w.trigger wt dict), true)) := by
   intro ws
   induction ws with
   | nil =>
